@@ -61,6 +61,9 @@ SPECS["C10"] = {
         {"name": "H5-failing-rule-children", "pkg": "engine", "files": ["engine/c10.go"], "fn": "VerifC10FailingRuleChildren",
          "what": "running 1-worker processor: 3 rules with symbolic priorities each adding a child event, symbolic failing rule, both fail-on-first-error settings", "reach": ["cascade-done"],
          "quick": {"unwind": 60, "wall_s": 600}, "thorough": {"unwind": 60, "wall_s": 1200}},
+        {"name": "H5-failing-rule-children-schedules", "pkg": "engine", "files": ["engine/c10.go"], "fn": "VerifC10FailingRuleChildren",
+         "what": "same under all schedules with <= 1 pre-emption (worker vs. the waiting goroutine reading the report when the wait returns)", "reach": ["cascade-done"],
+         "quick": {"params": {"P": 1}, "unwind": 60, "wall_s": 900}, "thorough": {"params": {"P": 2}, "unwind": 60, "wall_s": 3000}},
         {"name": "H1-rule-order", "pkg": "engine", "files": ["engine/c10.go"], "fn": "VerifC10RuleOrder",
          "what": "R rules with symbolic priorities and failing flags, both settings of fail-on-first-error", "reach": ["processed"],
          "quick": {"params": {"R": 3}, "unwind": 40}, "thorough": {"params": {"R": 4}, "unwind": 60}},
@@ -413,6 +416,9 @@ SPECS["C12"] = {
          "what": "2 threads on one name, one (quick) / two (thorough) blocks each with a nested re-entrant block, fall-through exits, thread ids 0/1, all schedules with <= 2 pre-emptions (release/registration hand-over windows)", "reach": ["all-done", "later-entrant-done"],
          "quick": {"params": {"T": 2, "P": 2, "NAMES": 1, "TIDS": 2, "EXITS": 1, "TWICE": 0}, "unwind": 60, "wall_s": 900},
          "thorough": {"params": {"T": 2, "P": 2, "NAMES": 1, "TIDS": 2, "EXITS": 1, "TWICE": 1}, "unwind": 60, "wall_s": 5400}},
+        {"name": "H2-handover", "pkg": "interpreter", "files": _C12, "fn": "VerifC12Handover",
+         "what": "gated hand-over: A inside, B waiting, A leaves (5 exit kinds), B inside, a third entrant (new thread or A's id again) must wait; then all finish and a later entrant gets in", "reach": ["third-entrant-arrived", "later-entrant-done"],
+         "quick": {"unwind": 60, "wall_s": 600}, "thorough": {"unwind": 60, "wall_s": 600}},
         {"name": "H1-threads-3", "pkg": "interpreter", "files": _C12, "fn": "VerifC12Mutex",
          "what": "3 threads on one name, P=1", "reach": ["all-done", "later-entrant-done"],
          "quick": None,
